@@ -114,6 +114,14 @@ CHECKS["C13"] = dict(
     design="5/C13",
 )
 
+CHECKS["C15"] = dict(
+    engine="E1-config-lattice",
+    technique="enumeration of kernel expression trees (leaf class x hyper-parameter alphabet x binary/unary compositions) with symmetry, diag, PSD, composition-algebra, spin-exchange and Richardson-gradient oracles",
+    text="Every kernel class of models/kernels.py (RBF iso/aniso/fixed, antisymmetric RBF, linear, polynomial orders 1-4 with and without factorial and anisotropic gamma, additive RBF orders 1-3 incl. fixed scale/length scale, ARBF-V2, additive linear-times-RBF, additive rational quadratic, partial/single/quadratic variants, constant, white and density-noise kernels, subset kernels with list/slice/stepped indices, spin-symmetrised kernels) with hyper-parameters at low/mid/high values is enumerated as a leaf, in every + and x composition of a basic pool (all leaves in thorough; depth 3 there), under integer powers, constants, linear transforms, active-dimension and spin-symmetrising wrappers; each tree must satisfy k(X,Y)=k(Y,X)^T, diag=diag k(X,X), positive semi-definiteness, the algebra of its composition, spin-block exchange symmetry, theta-gradients equal to Richardson differences in log-theta with exactly the non-fixed parameters on the last axis, and k_and_deriv equal to differences in X.",
+    note="Fixed sample matrices with coincident and far-apart rows; trees to depth 2 (quick) / 3 (thorough). Four legacy-class defects are listed in known_findings.json.",
+    design="5/C15",
+)
+
 NOT_YET = {}
 
 
